@@ -73,9 +73,9 @@ def options(scratch):
     pw_file = os.path.join(scratch, 'pwfile')
     key_file = os.path.join(scratch, 'keyfile')
     with open(pw_file, 'wb') as f:
-        f.write(b'pw-from-file')
+        f.write(b'pw-from-file \r\n')        # as an editor leaves it: the bytes are the password, whichever way the file is named
     with open(key_file, 'wb') as f:
-        f.write(b'{"key": "from-file"}')
+        f.write(b'{"key": "from-file"}\n')
     P = lambda s: {'path': s}          # noqa: E731
     B = lambda s: {'bytes': s}         # noqa: E731
     opts = [
@@ -95,11 +95,11 @@ def options(scratch):
             {'cli': ('pw-cli', B('pw-cli')), 'env': ('pw-env', B('pw-env')), 'profile': ('pw-profile', B('pw-profile')),
              'default': ('pw-default', B('pw-default'))}, None, 'password', cli=lambda v: ['-p', v], env='REPLICAT_PASSWORD'),
         Opt('password-file', 'args', ('cli', 'env', 'profile', 'default'),
-            {'cli': (pw_file, B('pw-from-file')), 'env': ('pw-env', B('pw-env')), 'profile': (pw_file, B('pw-from-file')),
-             'default': (pw_file, B('pw-from-file'))}, None, 'password', cli=lambda v: ['-P', v], env='REPLICAT_PASSWORD'),
+            {'cli': (pw_file, B('pw-from-file \r\n')), 'env': ('pw-env', B('pw-env')), 'profile': (pw_file, B('pw-from-file \r\n')),
+             'default': (pw_file, B('pw-from-file \r\n'))}, None, 'password', cli=lambda v: ['-P', v], env='REPLICAT_PASSWORD'),
         Opt('key-file', 'args', ('cli', 'profile', 'default'),
-            {'cli': (key_file, B('{"key": "from-file"}')), 'profile': (key_file, B('{"key": "from-file"}')),
-             'default': (key_file, B('{"key": "from-file"}'))}, None, 'key', cli=lambda v: ['-K', v]),
+            {'cli': (key_file, B('{"key": "from-file"}\n')), 'profile': (key_file, B('{"key": "from-file"}\n')),
+             'default': (key_file, B('{"key": "from-file"}\n'))}, None, 'key', cli=lambda v: ['-K', v]),
         Opt('key', 'args', ('profile', 'default'),
             {'profile': ('{"k": 1}', B('{"k": 1}')), 'default': ('{"k": 2}', B('{"k": 2}'))}, None, 'key'),
         # backend-specific options of a custom backend discovered through the namespace package
